@@ -92,3 +92,21 @@ def forward_variants(net, rows, shape=None):
         except Exception as e:
             out[name] = e
     return out
+
+
+def alias_check(net, rows1, rows2):
+    """Results handed out by earlier calls must not change when the handle is called again (no buffer shared between the
+    returned tensors).  Returns None if fine, else a description."""
+    x1, x2 = np.array(rows1, dtype=bool), np.array(rows2, dtype=bool)
+    r1 = quiet(net.forward, x1)
+    keep = r1.clone()
+    r2 = quiet(net.forward, x2)
+    keep2 = r2.clone()
+    r3 = quiet(net.forward, x1)
+    if not torch.equal(r1, keep):
+        return "the tensor returned by the first call changed after a second call on the same handle"
+    if not torch.equal(r2, keep2):
+        return "the tensor returned by the second call changed after a third call on the same handle"
+    if not torch.equal(r3, keep):
+        return "the same batch gave two different results on one handle"
+    return None
